@@ -30,7 +30,7 @@ COLOR_ACCEPT = {
   "black": (0, 0, 0, 255),
 }
 COLOR_REJECT = ["", "#1122334", "#112233 ", " #112233", "#11223", "#1122", "#11223344 ", "#1122334455", "#ff00001", "rgb(255,0,0)x", "xrgb(1,2,3)",
-                "rgba(255,0,0,255) none", "rgb(1,2)", "rgba(1,2,3)", "#gg0000", "#112233\n"]
+                "rgba(255,0,0,255) none", "rgb(1,2)", "rgba(1,2,3)", "rgba(255,0,0)", "rgb(1,2,3,4)", "rgba(1,2,3,)", "#gg0000", "#112233\n"]
 
 
 def check_color_parser(ctx, rule="FIN-color"):
@@ -57,8 +57,12 @@ def check_color_parser(ctx, rule="FIN-color"):
     key = f"{f.qualname}|{text!r} is not a colour"
     try:
       r = MiniEval(ix).call(f, [text])
-    except Raised:
-      ctx.ok(rule, key, ctx.where(f.module, f.node), "interpreted: raises")
+    except Raised as rx:
+      # a malformed value is refused with the ValueError the readers catch - not by an operation that fails on the way
+      # (int(None), a missing group), which surfaces as TypeError / IndexError and aborts the read
+      ctx.check(bool(rx.args) and rx.args[0] == "ValueError", rule, key, ctx.where(f.module, f.node), "interpreted: raises ValueError",
+                f"interpreted on {text!r}, the colour parser fails " + (f"with {rx.args[0]}" if rx.args else "inside an operation (a conversion of None, a missing group)")
+                + " instead of raising ValueError: the readers catch ValueError only, so this value aborts the read")
       n += 1
       continue
     except NotConst as ex:
@@ -656,3 +660,86 @@ def call_validate(ix, prop, value):
   if isinstance(fn, tuple) and fn and fn[0] == "closure":
     return me.call(fn[1], [value], None, {k: v_ for k, v_ in fn[2].items() if k != "__self__"}, 1)
   raise NotConst("validate is not a function")
+
+
+def check_time_expression_probes(ctx, rule="FIN-timeparse"):
+  """imsc.utils.parse_time_expression interpreted on a grid of TTML time expressions: every frame label 0 .. ceil(rate)-1 that is
+  below the frame rate is accepted and means s + ff / rate (the last label of a second included, also at 30000/1001), the label
+  ceil(rate) is refused; offsets in f / t / ms / s / m / h and clock times with a fraction mean what TTML2 10.3.1 says."""
+  import math
+  from fractions import Fraction as F
+  ix = ctx.ix
+  f = ix.func("ttconv.imsc.utils:parse_time_expression")
+  ctx.unit(f.module)
+  probes = []
+  for rate in (F(24), F(25), F(30), F(30000, 1001), F(60), F(24000, 1001)):
+    top = math.ceil(rate)
+    for ff in sorted({0, 1, top - 2, top - 1}):
+      if ff < rate:
+        probes.append((None, rate, f"01:02:03:{ff:02d}", F(3723) + F(ff) / rate))
+    probes.append((None, rate, f"00:00:01:{top:02d}", "error"))
+    probes.append((None, rate, "90f", F(90) / rate))
+    probes.append((None, rate, "0f", F(0)))
+  for tick in (1, 10, 10000000):
+    probes.append((tick, None, "25t", F(25, tick)))
+    probes.append((tick, F(25), "0t", F(0)))
+  probes += [(None, None, "1.5s", F(3, 2)), (None, None, "250ms", F(1, 4)), (None, None, "2m", F(120)), (None, None, "1h", F(3600)), (None, None, "0.5h", F(1800)),
+             (None, None, "01:02:03.5", F(3723) + F(1, 2)), (None, None, "100:00:00", F(360000)), (None, F(25), "00:00:10.040", F(10) + F(1, 25)),
+             (None, F(25), "abc", "error"), (None, None, "", "error")]
+  bad, n = [], 0
+  for tick, rate, expr, want in probes:
+    try:
+      got = MiniEval(ix).call(f, [tick, rate, expr])
+    except Raised:
+      got = "error"
+    except NotConst as ex:
+      ctx.undecide(rule, f"{f.qualname}('{expr}'): not in the interpreted subset ({ex})")
+      continue
+    n += 1
+    if got != want:
+      bad.append(f"'{expr}' at frame rate {rate}, tick rate {tick}: {got}, TTML gives {want}")
+  ctx.check(not bad, rule, f"{f.qualname}|time expressions on the probe grid", ctx.where(f.module, f.node), f"{n} probes interpreted",
+            "interpreted, parse_time_expression gives " + "; ".join(bad[:4]) + (f" (+{len(bad) - 4} more)" if len(bad) > 4 else ""))
+  return n
+
+
+_ERR = "error"
+DECODER_PROBES = {
+  # the documented domains (doc/*.md, README): max_row_count is "MNR" or a positive integer; program_start_tc is "TCP" or a SMPTE
+  # time code; safe_area is an integer percentage 0..30; boolean options take JSON booleans only
+  "ttconv.stl.config:_decode_max_row_count": [(None, None), ("MNR", "MNR"), ("mnr", "MNR"), (11, 11), (1, 1), (0, _ERR), (-3, _ERR), ("11", _ERR), ("007", _ERR), ("0", _ERR), ("x", _ERR),
+                                              ("", _ERR), (2.5, _ERR)],
+  "ttconv.stl.config:_decode_start_tc": [(None, None), ("TCP", "TCP"), ("tcp", "TCP"), ("10:00:00:00", "10:00:00:00"), ("10:00:00;00", "10:00:00;00"), ("1", _ERR), ("", _ERR),
+                                         ("10:00:00", _ERR), ("10:00:00:00 ", _ERR)],
+  "ttconv.filters.doc.lcd:_safe_area_decoder": [(0, 0), (10, 10), (30, 30), (31, _ERR), (-1, _ERR), (95, _ERR)],
+  "ttconv.config:decode_bool": [(True, True), (False, False), ("true", _ERR), ("false", _ERR), (0, _ERR), (1, _ERR), (None, _ERR), ("", _ERR)],
+}
+
+
+def check_config_decoders(ctx, only=None, rule="FIN-decoder"):
+  """The decoders of the configuration fields interpreted on raw JSON values: each accepts exactly its documented domain and
+  returns the documented value; everything else is refused (tt convert reports the configuration error and writes nothing)."""
+  ix = ctx.ix
+  n = 0
+  for q, rows in DECODER_PROBES.items():
+    if only is not None and q not in only:
+      continue
+    f = ix.func(q)
+    ctx.unit(f.module)
+    bad = []
+    k = 0
+    for raw, want in rows:
+      try:
+        got = MiniEval(ix).call(f, [raw])
+      except Raised:
+        got = _ERR
+      except NotConst as ex:
+        ctx.undecide(rule, f"{f.qualname}({raw!r}): not in the interpreted subset ({ex})")
+        continue
+      k += 1
+      if got != want or (want is not _ERR and type(got) is not type(want)):
+        bad.append(f"{raw!r} gives {got!r} instead of {'a configuration error' if want is _ERR else repr(want)}")
+    n += k
+    ctx.check(not bad, rule, f"{f.qualname}|accepts exactly its documented domain", ctx.where(f.module, f.node), f"{k} raw values interpreted",
+              f"interpreted, {f.short}: " + "; ".join(bad[:4]))
+  return n
